@@ -37,7 +37,7 @@ func (f *FakeNC) lastEditMode() string {
 // NCPlan says how each call behaves while the driver is armed.
 type NCPlan struct {
 	IsAlive string // "true" | "false"
-	Edit    string // "ok" | "warn" | "err" | "eof" | "rpcerr"
+	Edit    string // "ok" | "warn" | "err" | "eof" | "rpcerr" | "warn+err" (reply with a warning and an error rpc-error; scrapligo layer)
 	Commit  string // "ok" | "err" | "eof"
 	Discard string // "ok" | "err"
 	Shape   string // scrapligo layer only: how <rpc-error> replies are written: "" plain, "prefixed" (nc:rpc-error, RFC compliant namespace prefix)
@@ -109,7 +109,7 @@ func (f *FakeNC) EditConfig(tgt string, config string) (*nctypes.NetconfResponse
 		f.Running = append(f.Running, config)
 	}
 	switch mode {
-	case "err":
+	case "err", "warn+err":
 		return nil, errors.New("verif: edit-config transport error")
 	case "rpcerr":
 		// the way the production scrapligo adapter surfaces an <rpc-error> reply: a non-nil error
@@ -173,6 +173,8 @@ func c18Scenarios() []c18Scenario {
 		{Name: "mixed", Setup: []Op{A("fc")}, Test: A("fb"), Follow: follow},
 		{Name: "replace", Setup: []Op{A("fa")}, Test: Op{Replace: &IntentSpec{Owner: "replace", Frag: "fb"}}, Follow: follow},
 		{Name: "multi-module", Setup: []Op{A("fh")}, Test: A("fg"), Follow: follow},
+		// the change document starts with a bare element (<mode operation="delete"/>) followed by an update
+		{Name: "bare-delete-first", Setup: []Op{A("c18a")}, Test: A("c18b"), Follow: follow},
 	}
 }
 
@@ -208,6 +210,9 @@ func runC18() int {
 								jobs = append(jobs, job{sc, ds, opt, NCPlan{IsAlive: al, Edit: ed, Commit: co, Discard: di}, "driver"})
 								if (opt == XMLOpt{} || opt == XMLOpt{true, true, true}) {
 									jobs = append(jobs, job{sc, ds, opt, NCPlan{IsAlive: al, Edit: ed, Commit: co, Discard: di}, "scrapligo"})
+									if ed == "rpcerr" {
+										jobs = append(jobs, job{sc, ds, opt, NCPlan{IsAlive: al, Edit: "warn+err", Commit: co, Discard: di}, "scrapligo"})
+									}
 									if ed == "rpcerr" || co == "err" || di == "err" {
 										jobs = append(jobs, job{sc, ds, opt, NCPlan{IsAlive: al, Edit: ed, Commit: co, Discard: di, Shape: "prefixed"}, "scrapligo"})
 									}
@@ -224,6 +229,8 @@ func runC18() int {
 	distinct := map[string]bool{}
 	var samples []any
 	frags := CoreFragments()
+	frags["c18a"] = &Fragment{Name: "c18a", Leaves: []Leaf{leaf("A1", "mode", "a"), leaf("r1", "sys", "hostname")}}
+	frags["c18b"] = &Fragment{Name: "c18b", Leaves: []Leaf{leaf("r9", "sys", "hostname")}}
 	ch := make(chan job, 64)
 	var wg sync.WaitGroup
 	for i := 0; i < 16; i++ {
@@ -304,7 +311,7 @@ func runC18() int {
 				dead := !alive || j.plan.IsAlive == "false"
 				// a failing edit-config or commit must surface as an error of the Set
 				if success && !j.sc.Empty && !dead {
-					editFailed := strings.Contains(callStr, "EditConfig") && (j.plan.Edit == "err" || j.plan.Edit == "rpcerr")
+					editFailed := strings.Contains(callStr, "EditConfig") && (j.plan.Edit == "err" || j.plan.Edit == "rpcerr" || j.plan.Edit == "warn+err")
 					commitFailed := strings.Contains(callStr, "Commit") && j.plan.Commit == "err"
 					if editFailed || commitFailed {
 						add("failure-reported-as-success", fmt.Sprintf("the device answered edit-config/commit with a failure (edit=%s commit=%s) but the Set returned success", j.plan.Edit, j.plan.Commit))
@@ -384,7 +391,7 @@ func runC18() int {
 	return rep.Finish(map[string]any{
 		"evaluations":         evals,
 		"distinct_nontrivial": len(distinct),
-		"rule":                "full cross product: 6 change-document scenarios (empty, update-only, delete-only, mixed, replace, multi-module) x commit-datastore {candidate,running} x 8 XML option combinations x every assignment of behaviours to the driver calls IsAlive{true,false} EditConfig{ok,warnings,error,EOF,rpc-error} Commit{ok,error,EOF} Discard{ok,error}; a case is distinct by (scenario, datastore, plan, observed call sequence, outcome)",
+		"rule":                "full cross product: 7 change-document scenarios (empty, update-only, delete-only, mixed, replace, multi-module, bare-delete-first) x commit-datastore {candidate,running} x 8 XML option combinations x every assignment of behaviours to the driver calls IsAlive{true,false} EditConfig{ok,warnings,error,EOF,rpc-error} Commit{ok,error,EOF} Discard{ok,error}; a case is distinct by (scenario, datastore, plan, observed call sequence, outcome)",
 		"samples":             samples,
 		"fault_points":        []string{"IsAlive", "EditConfig", "Commit", "Discard"},
 		"exhaustive":          true,
